@@ -2,7 +2,7 @@ use crate::http::OrderedQs;
 
 use std::borrow::Cow;
 
-use time::OffsetDateTime;
+use time::{OffsetDateTime, PrimitiveDateTime};
 
 pub struct PresignedUrlV2<'a> {
     pub access_key: &'a str,
@@ -39,14 +39,53 @@ impl<'a> PresignedUrlV2<'a> {
     }
 }
 
+/// Parses the `Expires` parameter: seconds since the epoch.
+///
+/// A time beyond the range of [`OffsetDateTime`] is represented by the maximum value:
+/// the clock can not show a later time, so such a URL never expires.
 fn parse_unix_timestamp(s: &str) -> Option<OffsetDateTime> {
-    let ts = s.parse::<i64>().ok().filter(|&x| x >= 0)?;
-    OffsetDateTime::from_unix_timestamp(ts).ok()
+    let ts = match s.parse::<i64>() {
+        Ok(ts) => ts,
+        Err(_) if is_decimal(s) => i64::MAX, // too large for i64
+        Err(_) => return None,
+    };
+    if ts < 0 {
+        return None;
+    }
+    Some(OffsetDateTime::from_unix_timestamp(ts).unwrap_or(PrimitiveDateTime::MAX.assume_utc()))
+}
+
+/// `"+"? DIGIT+`
+fn is_decimal(s: &str) -> bool {
+    let digits = s.strip_prefix('+').unwrap_or(s);
+    !digits.is_empty() && digits.bytes().all(|b| b.is_ascii_digit())
 }
 
 #[cfg(test)]
 mod tests {
     use super::*;
+
+    #[test]
+    fn expires() {
+        let ts = |s| parse_unix_timestamp(s).map(OffsetDateTime::unix_timestamp);
+        assert_eq!(ts("1175139620"), Some(1_175_139_620));
+        assert_eq!(ts("+1175139620"), Some(1_175_139_620));
+        assert_eq!(ts("0"), Some(0));
+        assert_eq!(ts("253402300799"), Some(253_402_300_799));
+
+        assert_eq!(ts("-1"), None);
+        assert_eq!(ts(""), None);
+        assert_eq!(ts("+"), None);
+        assert_eq!(ts("1e5"), None);
+        assert_eq!(ts("99999999999999999999x"), None);
+        assert_eq!(ts("-99999999999999999999"), None);
+
+        let max = Some(PrimitiveDateTime::MAX.assume_utc());
+        assert_eq!(parse_unix_timestamp("253402300800"), max);
+        assert_eq!(parse_unix_timestamp("9223372036854775807"), max);
+        assert_eq!(parse_unix_timestamp("9223372036854775808"), max);
+        assert_eq!(parse_unix_timestamp("+99999999999999999999"), max);
+    }
 
     #[test]
     fn signature_is_decoded_once() {
